@@ -275,7 +275,7 @@ func c17Units(tier string) []Unit {
 	implDepth, implCap := 12, 100000
 	if tier == "thorough" {
 		implLevels = []int{2, 3, 4}
-		implDepth, implCap = 16, 2000000
+		implDepth, implCap = 16, 300000
 	}
 	for _, ml := range implLevels {
 		for _, fk := range implKeys {
